@@ -311,7 +311,13 @@ func CheckMain(o Options) int {
 	if procs == 0 {
 		procs = 8
 	}
-	work := filepath.Join(VerifDir(), "work", p.ID)
+	// one scratch directory per run (concurrent runs of the same check must not disturb each other)
+	if old, _ := filepath.Glob(filepath.Join(VerifDir(), "work", p.ID+"-*")); len(old) > 4 {
+		for _, o := range old {
+			os.RemoveAll(o)
+		}
+	}
+	work := filepath.Join(VerifDir(), "work", fmt.Sprintf("%s-%d", p.ID, os.Getpid()))
 	os.RemoveAll(work)
 	os.MkdirAll(work, 0755)
 	os.MkdirAll(filepath.Join(VerifDir(), "replays"), 0755)
